@@ -477,6 +477,9 @@ class VirtualFileSystem(FileSystem[str]):
         if folder == '.':
             # normpath() turns the empty (root) folder into '.', which no filename starts with.
             folder = ''
+        elif not folder.endswith('/'):
+            # Match whole folder names only, "materials" must not include "materials2/...".
+            folder += '/'
 
         for filename, data in self._mapping.values():
             if filename.startswith(folder):
@@ -589,6 +592,9 @@ class ZipFileSystem(FileSystem[ZipInfo]):
         """Yield files in a folder."""
         # \\ is not allowed in zips.
         folder = folder.replace('\\', '/').casefold()
+        if folder and not folder.endswith('/'):
+            # Match whole folder names only, "materials" must not include "materials2/...".
+            folder += '/'
         for filename, fileinfo in self._name_to_info.items():
             if filename.startswith(folder):
                 yield File(self, fileinfo.filename, fileinfo)
@@ -668,9 +674,12 @@ class VPKFileSystem(FileSystem[VPKFile]):
     def walk_folder(self, folder: str = '') -> Iterator[File[Self]]:
         """Yield files in a folder."""
         # All VPK files use forward slashes.
-        folder = folder.replace('\\', '/')
+        # FileInfo.dir has no trailing slash. Match whole folder names only, "materials" must not
+        # include "materials2/...".
+        folder = folder.replace('\\', '/').rstrip('/')
+        subfolder = folder + '/'
         for file in self._name_to_file.values():
-            if file.dir.startswith(folder):
+            if not folder or file.dir == folder or file.dir.startswith(subfolder):
                 yield File(self, file.filename, file)
 
     def open_bin(self, name: Union[str, File[Self]]) -> BinaryIO:
